@@ -386,6 +386,7 @@ impl ServiceDaemon {
     /// Returns [`Error::DaemonShutdown`] if the daemon thread has already exited.
     pub fn browse(&self, service_type: &str) -> Result<Receiver<ServiceEvent>> {
         check_domain_suffix(service_type)?;
+        check_label_lengths(service_type)?;
 
         let (resp_s, resp_r) = bounded(10);
         self.send_cmd(Command::Browse(service_type.to_string(), 1, false, resp_s))?;
@@ -406,6 +407,7 @@ impl ServiceDaemon {
     /// Same error conditions as [`browse`](Self::browse).
     pub fn browse_cache(&self, service_type: &str) -> Result<Receiver<ServiceEvent>> {
         check_domain_suffix(service_type)?;
+        check_label_lengths(service_type)?;
 
         let (resp_s, resp_r) = bounded(10);
         self.send_cmd(Command::Browse(service_type.to_string(), 1, true, resp_s))?;
@@ -448,6 +450,7 @@ impl ServiceDaemon {
         timeout: Option<u64>,
     ) -> Result<Receiver<HostnameResolutionEvent>> {
         check_hostname(hostname)?;
+        check_label_lengths(hostname)?;
         let (resp_s, resp_r) = bounded(10);
         self.send_cmd(Command::ResolveHostname(
             hostname.to_string(),
@@ -489,6 +492,11 @@ impl ServiceDaemon {
     pub fn register(&self, service_info: ServiceInfo) -> Result<()> {
         check_service_name(service_info.get_fullname())?;
         check_hostname(service_info.get_hostname())?;
+        check_label_lengths(service_info.get_fullname())?;
+        check_label_lengths(service_info.get_hostname())?;
+        if let Some(subtype) = service_info.get_subtype() {
+            check_label_lengths(subtype)?;
+        }
 
         self.send_cmd(Command::Register(service_info.into()))
     }
@@ -4217,6 +4225,39 @@ fn check_service_name_length(ty_domain: &str, limit: u8) -> Result<()> {
     if service_name_len > limit as usize {
         return Err(e_fmt!("Service name length must be <= {} bytes", limit));
     }
+    Ok(())
+}
+
+/// Checks that every label in `name` fits in a DNS label, i.e. is at most 63 bytes.
+///
+/// An escaped dot (`\.`) or backslash (`\\`) is one byte of its label, not a separator.
+fn check_label_lengths(name: &str) -> Result<()> {
+    const LABEL_LEN_MAX: usize = 63;
+
+    let mut label_len = 0;
+    let mut chars = name.chars().peekable();
+    while let Some(ch) = chars.next() {
+        match ch {
+            '\\' => match chars.peek() {
+                Some(&next_ch) if next_ch == '.' || next_ch == '\\' => {
+                    chars.next();
+                    label_len += next_ch.len_utf8();
+                }
+                _ => label_len += ch.len_utf8(),
+            },
+            '.' => label_len = 0,
+            _ => label_len += ch.len_utf8(),
+        }
+
+        if label_len > LABEL_LEN_MAX {
+            return Err(e_fmt!(
+                "A label in '{}' is longer than {} bytes",
+                name,
+                LABEL_LEN_MAX
+            ));
+        }
+    }
+
     Ok(())
 }
 
